@@ -362,3 +362,5 @@ func (f *vFakeOAuth2) attach(w *vWorld) {
 		Scopes:      []string{"openid"},
 	}
 }
+
+func newU2FChallenge() (*u2f.Challenge, error) { return u2f.NewChallenge(u2fAppID, u2fTrustedFacets) }
